@@ -2,18 +2,22 @@
 (* C26, model level: configurations x create_nxgraph option combinations.  Model-level theorems: components *)
 (* partition the node set (no notravbuses), BFS layers are shortest-path lengths.  The dumped states are     *)
 (* replayed by harness/checks/c26.py.                                                                        *)
-EXTENDS Topology
-CONSTANTS PinTrue, PinFalse
+EXTENDS Topology, FiniteSetsExt
+CONSTANTS PinTrue, PinFalse, BallK
 VARIABLES f, o
 
 Free == (Flags \ PinTrue) \ PinFalse
 Configs == {[x \in Flags |-> IF x \in PinTrue THEN TRUE ELSE IF x \in PinFalse THEN FALSE ELSE h[x]] :
               h \in [Free -> BOOLEAN]}
+\* every configuration within BallK flag flips of the base point (all in service / closed, no switch impedance);
+\* BallK = 0 selects the pinned sub-cube instead
+Base == [x \in Flags |-> x # "z0"]
+Ball == {[x \in Flags |-> IF x \in S THEN ~Base[x] ELSE Base[x]] : S \in UNION {kSubset(k, Flags) : k \in 0..BallK}}
 AllKinds == {"line", "trafo", "trafo3w", "switch"}
 Opts == [rs : BOOLEAN, oos : BOOLEAN, inc : {AllKinds} \cup {AllKinds \ {k} : k \in AllKinds},
          nogo : {{}, {1}}, notrav : {{}, {2}}]
 
-Init == f \in Configs /\ o \in Opts
+Init == f \in (IF BallK = 0 THEN Configs ELSE Ball) /\ o \in Opts
 Next == UNCHANGED <<f, o>>
 
 DistOpt == [o EXCEPT !.inc = AllKinds, !.oos = FALSE]       \* calc_distance_to_bus passes only rs/nogo/notrav
@@ -28,4 +32,12 @@ DistIsShortestPath ==
     /\ D[0] = 0
     /\ \A a \in A : a[1] \in DOMAIN D => (a[2] \in DOMAIN D /\ D[a[2]] <= D[a[1]] + 1)
     /\ \A b \in DOMAIN D \ {0} : \E a \in A : a[2] = b /\ a[1] \in DOMAIN D /\ D[a[1]] = D[b] - 1
+\* the weighted distances are shortest: no edge can shorten them, and every distance is realised by a predecessor
+WDistIsShortestPath ==
+  0 \in Nodes(f, DistOpt) =>
+    LET wd == WDist(f, DistOpt, 0)        \* bound once: the operator runs a Bellman-Ford relaxation
+        adj == Adj(f, DistOpt)
+    IN /\ wd[0] = 0
+       /\ \A a \in adj : a[1] \in DOMAIN wd => (a[2] \in DOMAIN wd /\ wd[a[2]] <= wd[a[1]] + KmOf(a[3], a[4]))
+       /\ \A b \in DOMAIN wd \ {0} : \E a \in adj : a[2] = b /\ a[1] \in DOMAIN wd /\ wd[a[1]] + KmOf(a[3], a[4]) = wd[b]
 =============================================================================
